@@ -53,6 +53,12 @@ func (trans *Transport) Transport(ctx context.Context, request []byte) ([]byte, 
 		return nil, err
 	}
 	defer resp.Body.Close()
+	if resp.Request != nil && resp.Request.Method != req.Method {
+		// a 301, 302 or 303 redirect was followed: net/http re-issues the call
+		// as a GET without the request, and what comes back is the answer to
+		// that GET (the function list), not to the call
+		return nil, errors.New("hprose/rpc/http: redirected to " + resp.Request.URL.String() + " without the request")
+	}
 	clientContext.Items().Set("httpStatusCode", resp.StatusCode)
 	clientContext.Items().Set("httpStatusText", http.StatusText(resp.StatusCode))
 	switch resp.StatusCode {
